@@ -284,6 +284,9 @@ def big_trees():
         M(m2, (V(L, L, L), ("ZD", (("c", m1), ("more", (L, F_))))), L),
         V(V(L, L, L), V(L, F_, L), V(L, L, L), V()),
         ("ZX", (("pair", (L, V(L, ("ZX", (("pair", (L, L)),)), L))),)),
+        # a class with two node bases and an empty body (fields from both), at the root, inside a tuple and as a single child
+        ("ZJ", (("pair", (L, V(L, L))), ("c", ("ZJ", (("pair", (L, F_)), ("c", None)))))),
+        V(("ZJ", (("pair", (L, L)), ("c", V(L, F_)))), L, ("ZU", (("c", ("ZJ", (("pair", (L, L)), ("c", L)))),))),
     ]
 
 
@@ -421,12 +424,13 @@ def run_shard(cfg):
     rec.extra["runtime_type_check_in_shard_2_mod_3"] = True
     rec.extra['first_use'] = zoo.warm_up(cfg['k'])
     U = zoo.universe(zoo.U_TRAV)
+    UB = zoo.universe(zoo.U_TRAV + ["ZJ"])   # the hand-shaped trees may use one more class
     idx = 0
     for j, d in enumerate(big_trees()):
         if j % cfg["of"] == cfg["k"]:
             rec.rank = 10**9 + j
             rec.count("big_trees")
-            check_tree(U, d, None, rec, light=False)
+            check_tree(UB, d, None, rec, light=False)
     if cfg["k"] == 11 % cfg["of"]:
         check_deep_chain(rec)
     if cfg["k"] == 13 % cfg["of"]:
@@ -456,7 +460,7 @@ def run_shard(cfg):
 
 def replay(case, cfg):
     rec = Rec(cfg)
-    U = zoo.universe(zoo.U_TRAV)
+    U = zoo.universe(zoo.U_TRAV + ["ZJ"])
     share = None
     if case.get("share"):
         share = {tuple(tuple(s) for s in k): tuple(tuple(s) for s in v) for k, v in case["share"]}
